@@ -94,19 +94,21 @@ HashEInt(c, alg, H) == IF alg = "ecdsa" THEN H % c.n ELSE GostE(c, H)
 
 (* ------------------------------------------------------------------ byte entry points *)
 \* order "be": the buffers are the standards' octet strings.  order "le": every buffer holds its integer least
-\* significant octet first, i.e. the standard applies to the reversed buffer.  Where the standards are silent the
-\* set has more than one admissible e:
+\* significant octet first, i.e. the standard applies to the reversed buffer S.  Where the standards are silent the
+\* set has more than one admissible e (B = FieldBytes):
 \*   - GOST fixes the digest length to the size of q; for a longer digest both "alpha = the whole digest" and
-\*     "the first FieldBytes octets" are admitted;
-\*   - "le" with a digest longer than FieldBytes: besides the reversed-buffer reading, keeping the FIRST FieldBytes
-\*     octets of the buffer (what the header documents: MIN(hash_size, bytes)) is admitted.
+\*     "alpha = its B most significant octets" are admitted;
+\*   - "le" with a digest longer than B: besides the readings of the reversed buffer, keeping the FIRST B octets of
+\*     the buffer, i.e. the B least significant ones (what the header documents: MIN(hash_size, bytes)), is admitted.
 HashESet(c, alg, order, hb) ==
-   LET B    == FieldBytes(c)
-       std  == IF order = "be" THEN hb ELSE Rev(hb)
-       head == IF order = "be" THEN SubSeq(hb, 1, Min2(B, Len(hb))) ELSE Rev(SubSeq(hb, 1, Min2(B, Len(hb))))
-   IN  IF Len(hb) <= B THEN { HashE(c, alg, std) }
-       ELSE IF alg = "ecdsa" /\ order = "be" THEN { HashE(c, alg, std) }
-       ELSE { HashE(c, alg, std), HashE(c, alg, head) }
+   LET B   == FieldBytes(c)
+       S   == IF order = "be" THEN hb ELSE Rev(hb)                       \* most significant octet first
+       msB == SubSeq(S, 1, Min2(B, Len(S)))
+       lsB == SubSeq(S, Len(S) - Min2(B, Len(S)) + 1, Len(S))
+   IN  IF Len(hb) <= B THEN { HashE(c, alg, S) }
+       ELSE { HashE(c, alg, S) }
+            \cup (IF alg = "gost" THEN { HashE(c, alg, msB) } ELSE { })
+            \cup (IF order = "le" THEN { HashE(c, alg, lsB) } ELSE { })
 
 (* ------------------------------------------------------------------ documented library conversions *)
 \* big_num.h, bn_mod_reduce: "Computes bn = (bn mod (m - 1)) + 1", applied only when bn >= m.
